@@ -232,7 +232,11 @@ def ast_stmt(s):
         return ("Return",)
     if k == "call":
         return ("Call", ast_block(s[1]))
-    return ("Other",)          # wait / waitin: outside the grammar
+    if k == "wait":
+        return ("Wait", int(s[1]))     # std.wait_for and Waiter.wait_for are the same statement of the model
+    if k == "waitin":
+        return ("WaitIn", bool(s[1]))
+    return ("Other",)
 
 
 def g_fo(s, f):
@@ -245,6 +249,8 @@ def g_fo(s, f):
         return f
     if k == "Call":
         return g_fo(s[1], f)
+    if k == "Wait":
+        return s[1] == 1 and f
     return False
 
 
@@ -260,6 +266,10 @@ def g_zfall(s, f):
         return f
     if k == "Call":
         return g_zfall(s[1], f) or g_zret(s[1], f)
+    if k == "Wait":
+        return s[1] == 1 and f
+    if k == "WaitIn":
+        return s[1]
     return False
 
 
@@ -287,22 +297,26 @@ def g_zcnt(s, f):
     return False
 
 
-def g_wf(s, inloop, incall, first):
+def g_wf(s, inloop, incall, first, da=False, ds=False):
     k = s[0]
     if k in ("Skip", "Eff", "Await", "WhileFalse"):
         return True
     if k == "Seq":
-        return g_wf(s[1], inloop, incall, first) and g_wf(s[2], inloop, incall, g_fo(s[1], first))
+        return g_wf(s[1], inloop, incall, first, da, ds) and g_wf(s[2], inloop, incall, g_fo(s[1], first), da, ds)
     if k == "If":
-        return g_wf(s[1], inloop, incall, False) and g_wf(s[2], inloop, incall, False)
+        return g_wf(s[1], inloop, incall, False, da, ds) and g_wf(s[2], inloop, incall, False, da, ds)
     if k == "While":
-        return g_wf(s[1], True, incall, False) and not g_zcnt(s[1], False)
+        return g_wf(s[1], True, incall, False, da, ds) and not g_zcnt(s[1], False)
     if k in ("Break", "Continue"):
         return inloop
     if k == "Return":
         return incall and not first
     if k == "Call":
-        return g_wf(s[1], False, True, first)
+        return g_wf(s[1], False, True, first, da, ds)
+    if k == "Wait":
+        return s[1] >= 1 and not (s[1] == 1 and first)
+    if k == "WaitIn":
+        return da and (s[1] or ds)
     return False
 
 
@@ -328,16 +342,31 @@ def g_fchk(s, nf):
     if k == "While":
         nl = 2 + g_fneed(s[1], 1 + nf)
         return g_fneed(s[1], 1 + nf) <= REF_FUEL and nf <= REF_FUEL and g_fchk(s[1], nl)
-    if k in ("Await", "WhileFalse"):
+    if k in ("Await", "WhileFalse", "Wait", "WaitIn"):
         return nf <= REF_FUEL
     if k == "Call":
         return g_fchk(s[1], 1 + nf)
     return True
 
 
-def in_grammar(prog):
+def grammar_of(prog):
+    """None, or the Coq predicate of Models/Lower.v the program satisfies: "in_grammar", or
+    "in_grammar_dur true|false" for programs with run-time durations (true: some wait_for(self.dur) without
+    allow_zero, the theorem then assumes dur >= 1 - the case alphabet excludes 0 in exactly these cases)"""
     a = ast_block(prog)
-    return g_wf(a, False, False, True) and g_fchk(a, 1) and g_fneed(a, 1) <= REF_FUEL
+    if not (g_fchk(a, 1) and g_fneed(a, 1) <= REF_FUEL):
+        return None
+    if g_wf(a, False, False, True):
+        return "in_grammar"
+    if uses(prog, ("waitin",)):
+        ds = not all_allow_zero(prog)
+        if g_wf(a, False, False, True, True, ds):
+            return "in_grammar_dur " + ("true" if ds else "false")
+    return None
+
+
+def in_grammar(prog):
+    return grammar_of(prog) == "in_grammar"
 
 
 # ----------------------------------------------------------------------------
@@ -515,7 +544,7 @@ Qed.
 # design x machine; LOW_DERIVED obtains the same statement from case_ok and the all-programs theorem
 # LowerProofs.lower_correct (no second exploration).
 LOW_HEAD = """From Cohdl Require Import Equiv.RefTS Models.Lower Models.LowerProofs.
-Example in_gr : in_grammar p = true. Proof. vm_cast_no_check (eq_refl true). Qed.
+Example in_gr : GRAMMAR p = true. Proof. vm_cast_no_check (eq_refl true). Qed.
 Definition m : machine := Eval vm_compute in (lower p).
 Definition assumeZ (_ : list Z) (_ : list value) := true.
 """
@@ -583,8 +612,9 @@ def diagnose_low(path):
     a = src.index("Theorem case_ok")
     b = src.index("Qed.", a) + len("Qed.\n")
     src = src[:a] + src[b:]
-    src = src.replace("Example in_gr : in_grammar p = true. Proof. vm_cast_no_check (eq_refl true). Qed.\n",
-                      "Eval vm_compute in (in_grammar p).\n")
+    import re as _re
+    src = _re.sub(r"Example in_gr : (in_grammar\w*(?: true| false)?) p = true\. Proof\. vm_cast_no_check \(eq_refl true\)\. Qed\.\n",
+                  r"Eval vm_compute in (\1 p).\n", src)
     dpath = path[:-2] + "_diaglow.v"
     with open(dpath, "w") as f:
         f.write(src + DIAG_LOW)
@@ -650,7 +680,8 @@ def make_case(ck, name, prog, vhdl, count=False, low=None):
     with open(path, "w") as f:
         f.write(CASE_TMPL.format(header=common.COQ_HEADER, design=term, prog=block_coq(prog), cands=cands,
                                  count=COUNT if count else "",
-                                low={None: "", "direct": LOW_DIRECT, "derived": LOW_DERIVED}[low]))
+                                low={None: "", "direct": LOW_DIRECT, "derived": LOW_DERIVED}[low].replace(
+                                    "GRAMMAR", grammar_of(prog) or "in_grammar")))
     return path
 
 
@@ -724,11 +755,12 @@ def run_programs(ck, progs, what="emitted state machine and coroutine semantics 
                 ck.sample({"rejected": r["error"][:200], "program": prog})
             continue
         mode = None
-        if low and in_grammar(prog):
+        gram = grammar_of(prog) if low else None
+        if gram is not None:
             # explore design x lowered machine (corpus, replays, thorough tier: all; quick tier: three of
             # four generated programs); the others get the same statement through case_ok + lower_correct,
             # which exercises the all-programs theorem on a concrete in_grammar proof
-            direct = ck.tier != "quick" or not name.startswith("rand") or n_gram % 4 != 3
+            direct = ck.tier != "quick" or not name.startswith("rand") or n_gram % 4 != 3 or gram != "in_grammar"
             mode = "direct" if direct else "derived"
             n_gram += 1
         try:
